@@ -1,3 +1,4 @@
+(* [deepened: mgm_async_no_move_1opt is now a theorem about asynchronous executions, see below] *)
 (* Prop_C04.v -- C04: a cycle with no MGM/MGM2 move means the assignment is 1-opt.
    Only statements; each closed by an exact lemma from P_Mgm / P_Mgm2.
 
@@ -6,7 +7,7 @@
    by changing its value alone.  Proved here for one complete cycle as a function ([mgm_next]),
    for all inputs, both objectives -- suffix _partial because the refinement of the asynchronous
    handlers to [mgm_next] is checked by the correspondence run (M_Mgm.rcheck_case), not proved. *)
-From PyDcop Require Import Base Net M_Mgm P_Mgm M_Mgm2 P_Mgm2.
+From PyDcop Require Import Base Net M_Mgm P_Mgm M_Mgm2 P_Mgm2 P_Mgm3 P_Mgm3c P_Mgm3b.
 
 (* variables that take part in cycles (they have a neighbour) *)
 Theorem mgm_no_move_1opt_partial : forall d, wf_dcop d = true -> forall a dr,
@@ -27,6 +28,19 @@ Theorem mgm_improvable_moves_partial : forall d, wf_dcop d = true -> forall a dr
   In n0 (ids d) -> r_active d n0 = true -> r_improving d a n0 = true ->
   exists n, In n (ids d) /\ mgm_next d a dr n <> a n.
 Proof. exact some_improving_moves. Qed.
+
+(* ------------------------------------------------------------------ deepening (P_Mgm3*.v)
+   C04 for asynchronous executions (the refinement to mgm_next is proved, Prop_C03.mgm_refines_rounds):
+   if between a reachable configuration at cycle boundary j and one at boundary j+1 (every schedule)
+   no variable has changed its value, then no variable -- with or without neighbour -- can improve
+   the global cost by changing its value alone *)
+Theorem mgm_async_no_move_1opt : forall d stop orc, 0 <= stop -> forall cf1 cf2 j, wf_dcop d = true ->
+  reachable (mgm_proto d stop orc) cf1 -> reachable (mgm_proto d stop orc) cf2 ->
+  at_boundary d cf1 j -> at_boundary d cf2 (S j) ->
+  (forall n, In n (ids d) -> held cf2 n = held cf1 n) ->
+  forall n x, In n (ids d) -> In x (dom_of d n) ->
+  better (d_max d) (gcost d (fupd (held cf2) n x)) (gcost d (held cf2)) = false.
+Proof. exact mgm_async_no_move_1opt_l. Qed.
 
 (* MGM2: the statement is FALSE of the code as it is (known finding C04-mgm2-idle-after-commitment):
    a variable committed to a coordinated move gets NO-GO when another neighbour ties the pair gain,
